@@ -30,6 +30,9 @@ def gen_cases(ctx):
     cases = []
     for par in gen.HARD_SHAPES:
         cases.append({"kind": "notrunc", "par": par, "seed": rng.randrange(10 ** 9), "steps": 3})
+        # product initial states: bonds grow during the sweep, so stale environments cannot cancel
+        cases.append({"kind": "notrunc", "par": par, "seed": rng.randrange(10 ** 9), "steps": 2, "bonds": [1],
+                      "rich": True})
     for _ in range(ctx.n(14, 200)):
         kind = rng.choice([None, "spider", "chain", "star", "bush", "bush", "twig"])
         n = rng.choice([4, 5, 6]) if kind else rng.choice([2, 3, 4, 5])
@@ -104,7 +107,7 @@ def run_impl(ctx, case):
     if case["kind"] == "twonode":
         _twonode(ctx, case)
         return None
-    c6case = {"par": case["par"], "seed": case["seed"], "fullrank": False}
+    c6case = {"par": case["par"], "seed": case["seed"], "fullrank": False, "bonds": case.get("bonds"), "rich": case.get("rich")}
     rng, nprng, ttns, info, H, Hm, Hneg = c06._problem(c6case)
     n = len(case["par"])
     names = info["names"]
